@@ -399,6 +399,66 @@ def expand_for_merge(ctx, mod):
         if isinstance(st, ast.Assign) and len(st.targets) == 1 and isinstance(st.targets[0], ast.Name):
             locals_.setdefault(st.targets[0].id, []).append(st)
 
+    # ---- block fast paths: buf = zeros(len(new_idx)); buf[a:b] = deltas  under 'both lists are ranges with the same step'.
+    # position j of the result belongs to configuration new_idx.start + j*step, position i of deltas to idx.start + i*step: the block
+    # must start at a = (idx.start - new_idx.start) / step and have `shape` entries.
+    block_buffers = {}
+    st_, o_, n_ = sp.symbols('step idx_start new_start', integer=True, positive=True)
+    for stt in statements(f):
+        if isinstance(stt, ast.Assign) and isinstance(stt.targets[0], ast.Subscript) and isinstance(stt.targets[0].slice, ast.Slice) and isinstance(stt.targets[0].value, ast.Name) \
+                and unparse(stt.value) == deltas and guards_of(mod, stt, stop=f):
+            buf = stt.targets[0].value.id
+            key = 'obs.py:_expand_deltas_for_merge#block-copy[%s]' % unparse(stt.targets[0])
+            gtxt = [unparse(t) for t, pol in guards_of(mod, stt, stop=f) if pol]
+            ranges_ok = any('type(%s) is range' % idx in g_ and 'type(%s) is range' % new_idx in g_ for g_ in gtxt) or (any('type(%s) is range' % idx in g_ for g_ in gtxt) and any('type(%s) is range' % new_idx in g_ for g_ in gtxt))
+            step_ok = any(('%s.step == %s.step' % (idx, new_idx)) in g_ or ('%s.step == %s.step' % (new_idx, idx)) in g_ for g_ in gtxt)
+            bdef = [d for d in locals_.get(buf, []) if guards_of(mod, d, stop=f)]
+            single = dict((k, v[0].value) for k, v in locals_.items() if len(v) == 1)
+
+            def batoms(node):
+                if isinstance(node, ast.Attribute) and isinstance(node.value, ast.Name):
+                    if node.attr == 'step' and node.value.id in (idx, new_idx):
+                        return st_
+                    if node.attr == 'start' and node.value.id == idx:
+                        return o_
+                    if node.attr == 'start' and node.value.id == new_idx:
+                        return n_
+                if isinstance(node, ast.Subscript) and isinstance(node.value, ast.Name) and const(node.slice) == 0:
+                    if node.value.id == idx:
+                        return o_
+                    if node.value.id == new_idx:
+                        return n_
+                if isinstance(node, ast.Call) and call_name(node) == 'len' and len(node.args) == 1 and unparse(node.args[0]) in (idx, new_idx):
+                    return Lo if unparse(node.args[0]) == idx else Ln
+                if isinstance(node, ast.Name) and node.id == shape:
+                    return Lo
+                if isinstance(node, ast.Name) and node.id in single and node.id not in (deltas, idx, new_idx, shape, scale):
+                    return Translator(mod, atoms=batoms, free='error', positive=False).tr(single[node.id])
+                if isinstance(node, ast.BinOp) and isinstance(node.op, ast.FloorDiv):
+                    # exact by the precondition that idx is a subset of new_idx with the same step
+                    tr_ = Translator(mod, atoms=batoms, free='error', positive=False)
+                    return tr_.tr(node.left) / tr_.tr(node.right)
+                return None
+            try:
+                tr_ = Translator(mod, atoms=batoms, free='error', positive=False)
+                lo_ = tr_.tr(stt.targets[0].slice.lower) if stt.targets[0].slice.lower is not None else sp.Integer(0)
+                hi_ = tr_.tr(stt.targets[0].slice.upper) if stt.targets[0].slice.upper is not None else Ln
+                blen = tr_.tr(bdef[0].value.args[0]) if len(bdef) == 1 and isinstance(bdef[0].value, ast.Call) and call_name(bdef[0].value) == 'zeros' and bdef[0].value.args else None
+            except Unrecognised as e:
+                ctx.unrec(rule5, key, str(e), mod.loc(stt))
+                continue
+            if blen is None or not ranges_ok:
+                ctx.unrec(rule5, key, 'block copy outside the range/range case or buffer definition not understood', mod.loc(stt))
+                continue
+            ok_len = sp.simplify(blen - Ln) == 0
+            ok_n = sp.simplify(hi_ - lo_ - Lo) == 0
+            ok_pos = step_ok and sp.simplify(lo_ * st_ - (o_ - n_)) == 0
+            ctx.check(rule5, key, ok_len and ok_n and ok_pos,
+                      'block of %s entries placed at position (idx.start - new_idx.start)/step of a buffer of len(new_idx)' % Lo,
+                      'block copy misplaces the fluctuations: buffer length %s (must be len(new_idx)), block length %s (must be len(idx)), first position %s but configuration idx.start sits at position (idx.start - new_idx.start)/step%s' % (
+                          blen, sp.simplify(hi_ - lo_), lo_, '' if step_ok else ' (and equal steps are not guaranteed on this path)'), mod.loc(stt))
+            block_buffers[buf] = stt
+
     # ---- D6 formula of every return
     general_seen = 0
     for ret in rets:
@@ -425,6 +485,8 @@ def expand_for_merge(ctx, mod):
                 if node.id in locals_ and len(locals_[node.id]) == 1 and not isinstance(locals_[node.id][0].value, ast.Call):
                     return None
             if isinstance(node, ast.Call) and (mod.dotted(node.func) or '') in ('numpy.array', 'numpy.asarray') and node.args and isinstance(node.args[0], ast.ListComp):
+                return A
+            if isinstance(node, ast.Name) and node.id in block_buffers:
                 return A
             return None
         try:
@@ -453,7 +515,7 @@ def expand_for_merge(ctx, mod):
     cfg, base = sp.symbols('cfg base', integer=True)
     stores = []
     for st in statements(f):
-        if isinstance(st, ast.Assign) and isinstance(st.targets[0], ast.Subscript) and isinstance(st.targets[0].value, ast.Name):
+        if isinstance(st, ast.Assign) and isinstance(st.targets[0], ast.Subscript) and isinstance(st.targets[0].value, ast.Name) and st not in block_buffers.values():
             stores.append(st)
     key = 'obs.py:_expand_deltas_for_merge#scatter-gather'
     loads = []
@@ -504,7 +566,7 @@ def expand_for_merge(ctx, mod):
               'gather runs over every entry of new_idx',
               'gather runs over %s' % unparse(ld.generators[0].iter), mod.loc(ld))
     # buffer length covers the span of new_idx
-    bufdef = locals_.get(buf, [])
+    bufdef = [d for d in locals_.get(buf, []) if not guards_of(mod, d, stop=f)]
     if len(bufdef) == 1 and isinstance(bufdef[0].value, ast.Call) and bufdef[0].value.args:
         last = sp.Symbol('last', integer=True)
 
@@ -972,6 +1034,8 @@ def run(ctx):
 
 
 SELFTEST = [
+    ('benign-block-fast-path', 'pyerrors/obs.py', "    ret = np.zeros(new_idx[-1] - new_idx[0] + 1)\n    for i in range(shape):\n        ret[idx[i] - new_idx[0]] = deltas[i]", "    if type(idx) is range and type(new_idx) is range and idx.step == new_idx.step:\n        blk = np.zeros(len(new_idx))\n        first = (idx.start - new_idx.start) // idx.step\n        blk[first:first + shape] = deltas\n        return blk * len(new_idx) / len(idx) * scalefactor\n    ret = np.zeros(new_idx[-1] - new_idx[0] + 1)\n    for i in range(shape):\n        ret[idx[i] - new_idx[0]] = deltas[i]", 'BENIGN'),
+    ('block-fast-path-no-step-division', 'pyerrors/obs.py', "    ret = np.zeros(new_idx[-1] - new_idx[0] + 1)\n    for i in range(shape):\n        ret[idx[i] - new_idx[0]] = deltas[i]", "    if type(idx) is range and type(new_idx) is range and idx.step == new_idx.step:\n        blk = np.zeros(len(new_idx))\n        first = idx.start - new_idx.start\n        blk[first:first + shape] = deltas\n        return blk * len(new_idx) / len(idx) * scalefactor\n    ret = np.zeros(new_idx[-1] - new_idx[0] + 1)\n    for i in range(shape):\n        ret[idx[i] - new_idx[0]] = deltas[i]", 'C01-D5'),
     ('grad-tanh', 'pyerrors/obs.py', "man_grad=[1 / np.cosh(self.value) ** 2]", "man_grad=[1 / np.cosh(self.value)]", 'C01-D1'),
     ('grad-truediv', 'pyerrors/obs.py', "man_grad=[1 / y.value, - self.value / y.value ** 2]", "man_grad=[1 / y.value, self.value / y.value ** 2]", 'C01-D1'),
     ('grad-cobs-mul', 'pyerrors/obs.py', "man_grad=[other.imag.value, self.imag.value, other.real.value, self.real.value]", "man_grad=[other.imag.value, self.imag.value, other.real.value, self.imag.value]", 'C01-D1'),
